@@ -4,6 +4,7 @@
  *  app write DIR OP...      library writer; between the markers:
  *        p:<field>:<n>      gd_putdata of the next n SAMPLES of <field> (sample i of a field
  *                           has the value base+i, base = 1000 for a, 0 for b (mod 256))
+ *        h                  heartbeat: gd_put_constant("hb", ++beat) (metadata that changes between flushes)
  *        s | f | m | c      gd_sync(NULL) | gd_flush(NULL) | gd_metaflush | gd_raw_close(NULL)
  *  app rawwrite FILE ESIZE BASE FIRST NSAMPLES CHUNK...
  *                           a foreign acquisition program: appends the little-endian samples
@@ -27,6 +28,11 @@ static void pass(DIRFILE *D, const char *tag)
   if (e0) { printf("%s openerr %d\n", tag, e0); return; }
   nf = gd_nframes64(D);
   printf("%s nf %" PRId64 " e %d", tag, (int64_t)nf, gd_error(D));
+  {
+    uint32_t hb = 0;
+    int he = gd_get_constant(D, "hb", GD_UINT32, &hb);
+    printf(" hb %u he %d", hb, he ? gd_error(D) : 0);
+  }
   if (nf > 0 && nf < 100000) {
     const char *fl[2] = { "a", "b" };
     int k;
@@ -122,6 +128,10 @@ int main(int argc, char **argv)
         *nx += w;
         r = gd_error(D);
         free(v);
+      } else if (op[0] == 'h') {
+        static uint32_t beat = 0;
+        beat++;
+        r = gd_put_constant(D, "hb", GD_UINT32, &beat);
       } else if (op[0] == 's') r = gd_sync(D, NULL);
       else if (op[0] == 'f') r = gd_flush(D, NULL);
       else if (op[0] == 'm') r = gd_metaflush(D);
